@@ -130,7 +130,7 @@ Definition interp_u8_leaf (f : Field) (z : Z) : IRes :=
 Fixpoint interp (f : Field) (v : Value) {struct v} : IRes :=
   let null_ok := fnullable' f || match fdt' f with DNull => true | _ => false end in
   match v with
-  | VNone | VUnit =>
+  | VNone | VUnit | VUnitStruct =>                         (* a unit struct is written like a unit *)
     match fdt' f with
     | DUnion _ => IReject                                  (* documented: no null for unions *)
     | _ => if null_ok then IOk LNull else IReject
@@ -138,7 +138,7 @@ Fixpoint interp (f : Field) (v : Value) {struct v} : IRes :=
   | VSome x | VNewtypeStruct x => interp f x
   | _ =>
     match fdt' f with
-    | DNull => match v with VUnitStruct => IOk LNull | _ => IReject end
+    | DNull => IReject
     | DBool => match v with VBool x => IOk (LBool x) | _ => IReject end
     | DPrim k => prim_scalar k v
     | DBytes (BUtf8 | BLargeUtf8) | DView KUtf8View | DDict _ _ =>
